@@ -38,7 +38,8 @@ Record frame := mkF {
   fisfunc : bool ;
   fdecl : list (Z * Z) ;      (* (name, DeclType) of Scope.Declared *)
   fund : list uent ;          (* Scope.Undeclared *)
-  fnarg : nat                 (* NumArgUses *)
+  fnarg : nat ;               (* NumArgUses *)
+  fnfor : nat                 (* NumForDecls *)
 }.
 
 Record astate := mkA {
@@ -62,9 +63,9 @@ Definition relabel (from to : label) (l : list label) : list label :=
   map (fun e => if label_eqb e from then to else e) l.
 
 Definition set_fund (fr : frame) (u : list uent) : frame :=
-  mkF (fid fr) (fisfunc fr) (fdecl fr) u (fnarg fr).
+  mkF (fid fr) (fisfunc fr) (fdecl fr) u (fnarg fr) (fnfor fr).
 Definition set_fdecl (fr : frame) (d : list (Z * Z)) : frame :=
-  mkF (fid fr) (fisfunc fr) d (fund fr) (fnarg fr).
+  mkF (fid fr) (fisfunc fr) d (fund fr) (fnarg fr) (fnfor fr).
 
 (* ---- Use ------------------------------------------------------------------------------------ *)
 Definition a_use (a : astate) (x : Z) : aout :=
@@ -128,6 +129,9 @@ Definition a_declare (a : astate) (decl x : Z) : aout :=
   | None => AStuck
   | Some None => ARej
   | Some (Some (pre, tgt, post)) =>
+      (* a name of the loop head declared again in the loop body (Declare skips Declared[:NumForDecls] and makes
+         a second variable of that name in the same scope): outside the machine *)
+      if existsb (fun e => fst e =? x) (firstn (fnfor tgt) (fdecl tgt)) then AStuck else
       match a_find_decl tgt x with
       | Some (_, kk) =>
           if kk =? ExprDecl then AStuck       (* function-expression names: outside the machine *)
@@ -178,11 +182,18 @@ Definition a_exit (a : astate) : aout :=
   end.
 
 Definition a_enter (a : astate) (is_func : bool) : aout :=
-  ARun (mkA (mkF (anext a) is_func [] [] O :: astack a) (S (anext a)) (alog a)).
+  ARun (mkA (mkF (anext a) is_func [] [] O O :: astack a) (S (anext a)) (alog a)).
 
 Definition a_mark_args (a : astate) : aout :=
   match astack a with
-  | fr :: rest => ARun (mkA (mkF (fid fr) (fisfunc fr) (fdecl fr) (fund fr) (length (fund fr)) :: rest) (anext a) (alog a))
+  | fr :: rest => ARun (mkA (mkF (fid fr) (fisfunc fr) (fdecl fr) (fund fr) (length (fund fr)) (fnfor fr) :: rest) (anext a) (alog a))
+  | [] => AStuck
+  end.
+
+Definition a_mark_for (a : astate) : aout :=
+  match astack a with
+  | fr :: rest =>
+      ARun (mkA (mkF (fid fr) (fisfunc fr) (fdecl fr) (fund fr) (length (fund fr)) (length (fdecl fr)) :: rest) (anext a) (alog a))
   | [] => AStuck
   end.
 
@@ -193,6 +204,7 @@ Definition astep (a : astate) (e : event) : aout :=
   | EDeclare decl x => if decl =? NoDecl then AStuck else a_declare a decl x
   | EUse x => a_use a x
   | EMarkArgs => a_mark_args a
+  | EMarkFor => a_mark_for a
   | _ => AStuck
   end.
 
